@@ -364,6 +364,11 @@ def enabled_ops(shape):
         ops.append(("resize", ax, 1))
         if shape[ax] > 0:
             ops.append(("resize", ax, -1))
+    # the axis given the NumPy way (counted from the end), and an axis the array does not have
+    for ax in range(len(shape)):
+        for k in (1, 2):
+            ops.append(("append_negaxis", ax, k))
+    ops.append(("append_noaxis",))
     ops.append(("reopen", "ro"))
     ops.append(("reopen", "rw"))
     return ops
@@ -373,6 +378,8 @@ def model_shape_after(shape, op):
     shape = list(shape)
     if op[0] == "append":
         shape[op[1]] += op[2]
+    elif op[0] in ("append_negaxis", "append_noaxis"):
+        pass        # refused or NumPy semantics: histories are not extended beyond these (see gen_hist)
     elif op[0] == "resize":
         shape[op[1]] += op[2]
     return tuple(shape)
@@ -389,6 +396,8 @@ def gen_hist(shape, depth):
                 continue
             h2 = hist + [op]
             out.append(h2)
+            if op[0] in ("append_negaxis", "append_noaxis"):
+                continue        # both outcomes are legal, so the shape afterwards is not known here
             go(model_shape_after(shape, op), h2, op == ("reopen", "ro") or (ro and op[0] != "reopen"))
     go(tuple(shape), [], False)
     return out
@@ -429,6 +438,23 @@ def apply_op(s, name, da, model, dt, op, counter):
         block = pattern(dt, shp, counter + 4)
         da.append(block, axis=op[1])
         model.append(block, op[1])
+    elif op[0] == "append_negaxis":
+        # axis counted from the end: either refused (nothing changes) or it means what it means in NumPy
+        shp = list(model.a.shape)
+        shp[op[1]] = op[2]
+        block = pattern(dt, shp, counter + 5)
+        try:
+            da.append(block, axis=op[1] - len(shp))
+        except Exception:
+            return da
+        model.append(block, op[1])
+    elif op[0] == "append_noaxis":
+        # an axis the array does not have (a block of the array's own shape): refused, or nothing changes
+        block = pattern(dt, model.a.shape, counter + 6)
+        try:
+            da.append(block, axis=len(model.a.shape))
+        except Exception:
+            return da
     elif op[0] == "resize":
         shp = list(model.a.shape)
         shp[op[1]] += op[2]
